@@ -240,6 +240,17 @@ fn cert_and_key(g: &Graph, c: &Conc, v: usize, rng: &mut Rng) -> (CertificateAnd
     }
     if is_natural && rng.below(3) == 0 {
         names.clear();
+    } else {
+        // spelling of a certificate name must not matter: DNS names compare case-insensitively and the
+        // absolute form `name.` denotes the same host
+        for n in names.iter_mut() {
+            match rng.below(8) {
+                0 => *n = n.to_uppercase(),
+                1 => *n = mixed_case(n, rng),
+                2 => n.push('.'),
+                _ => {}
+            }
+        }
     }
     let expired_at = if is_natural && rng.below(3) == 0 { None } else { Some(TS[var.expiry as usize - 1]) };
     (CertificateAndKey { certificate: cert, certificate_chain: vec![], key, versions: vec![], names }, expired_at)
@@ -1155,6 +1166,60 @@ fn main() {
         }
         out.flush().unwrap();
         worker_stats = json!({"trace_events": events, "trace_file": trace_out});
+    } else if mode == "notes" {
+        // Side experiments OUTSIDE the model's universe (not verdicts): how the real resolver treats spellings of
+        // certificate names that the specification does not range over. Reported as observations.
+        let (g, c) = (&sh.g, &sh.c);
+        let mut obs: Vec<Value> = Vec::new();
+        let add_named = |r: &mut CertificateResolver, fp: usize, names: Vec<String>| {
+            let (cert, key) = c.pems[fp - 1].clone();
+            r.add_certificate(&AddCertificate { address: address(), expired_at: Some(TS[0]),
+                certificate: CertificateAndKey { certificate: cert, certificate_chain: vec![], key, versions: vec![], names } }).map(|_| ()).map_err(|e| e.to_string())
+        };
+        let lower = c.names[0].clone(); // a.x
+        for (what, spelled) in [("upper-case certificate name", mixed_case(&lower, &mut Rng::new(7)).to_uppercase()),
+                                ("certificate name with trailing dot", format!("{lower}.")),
+                                ("upper-case wildcard certificate name", c.names[2].to_uppercase())] {
+            let r = catch_unwind(AssertUnwindSafe(|| {
+                let mut r = CertificateResolver::default();
+                let res = add_named(&mut r, 1, vec![spelled.clone()]);
+                let probe = if what.contains("wildcard") { c.probes[2].clone() } else { lower.clone() };
+                (res, served(c, &r, &probe), probe)
+            }));
+            obs.push(match r {
+                Ok((res, got, probe)) => json!({"experiment": what, "certificate_name": spelled, "add": format!("{res:?}"), "probe": probe, "served": got}),
+                Err(e) => json!({"experiment": what, "certificate_name": spelled, "panic": vh::util::panic_message(e)}),
+            });
+        }
+        // duplicate entries in the override list: add then remove must leave nothing behind
+        let r = catch_unwind(AssertUnwindSafe(|| {
+            let mut r = CertificateResolver::default();
+            let a = add_named(&mut r, 1, vec![lower.clone(), lower.clone()]);
+            let b = add_named(&mut r, 2, vec![lower.clone()]);
+            let s1 = served(c, &r, &lower);
+            let rm = r.remove_certificate(&c.fps[0]).map_err(|e| e.to_string());
+            let s2 = served(c, &r, &lower);
+            let rm2 = r.remove_certificate(&c.fps[1]).map_err(|e| e.to_string());
+            let (index, store) = r.verif_snapshot();
+            (a, b, s1, rm, s2, rm2, index.len(), store.len(), r.domains.to_hashmap().len())
+        }));
+        obs.push(match r {
+            Ok(t) => json!({"experiment": "duplicate entries in the names override, add fp1 [n,n], add fp2 [n], remove fp1, remove fp2", "result": format!("{t:?}")}),
+            Err(e) => json!({"experiment": "duplicate entries in the names override", "panic": vh::util::panic_message(e)}),
+        });
+        // SNI spelled with a trailing dot by the client
+        {
+            let mut r = CertificateResolver::default();
+            let _ = add_named(&mut r, 1, vec![lower.clone()]);
+            let rec = Arc::new(hs::Recorder(Mutex::new(None)));
+            let client = hs::client_config(rec.clone());
+            let server = hs::server_config(Arc::new(MutexCertificateResolver(Mutex::new(r))));
+            let sni = format!("{lower}.");
+            let got = hs::handshake(server, client, &rec, &sni).map(|leaf| if leaf == c.default_fp { 0 } else { c.fps.iter().position(|f| f.0 == leaf).map(|k| k + 1).unwrap_or(98) });
+            obs.push(json!({"experiment": "client sends the SNI with a trailing dot", "sni": sni, "result": format!("{got:?}")}));
+        }
+        let _ = g;
+        worker_stats = json!({"observations": obs});
     } else if mode == "worker" {
         worker_stats = worker_leg(&sh, seed, walks, len);
     } else {
